@@ -137,6 +137,9 @@ def genShamirSecretShare (r : RingQP) (recipient : Nat) (sp : ShamirPoly) : Outc
   | none => .panic
   | some rows => .ok ⟨r.nq, rows⟩
 
+/-- `ringQP.NewPoly()` for ring degree `n`: all words zero. -/
+def zeroQP (r : RingQP) (n : Nat) : QP := ⟨r.nq, r.ms.map fun _ => List.replicate n 0⟩
+
 /-- `ringQP.Add`. -/
 def addQP (r : RingQP) (a b : QP) : QP := ⟨r.nq, addRows r.ms a.rows b.rows⟩
 
